@@ -151,7 +151,33 @@ class Facts(object):
                         want = {"publish": ("PUBACK",) if ri.qos == 1 else ("PUBREC", "PUBCOMP"),
                                 "subscribe": ("SUBACK",), "unsubscribe": ("UNSUBACK",)}[ri.kind]
                         if d[0] in want and (d[0] != "PUBCOMP" or any(k[3] == "PUBREC" for k in ri.acks)):
+                            if self._after_client_closed(e, ri, d[0]):
+                                return     # behind a packet whose callback called disconnect(): rightly ignored
                             ri.acks.append((e.i, e.step, e.t, d[0], e.c))
+
+    def _after_client_closed(self, e, ri, kind):
+        """In a segment of several packets, one whose callback makes the application disconnect() is followed by
+        packets the client no longer looks at.  There is no event per packet of a segment, so: when the client
+        closed or aborted inside this delivery, an acknowledgement counts only if its reaction is visible
+        (the Deferred fired, or the PUBREL was written)"""
+        if len(e.d.get("parts") or []) < 2:
+            return False
+        from .sim import within
+        closed = False
+        reacted = False
+        i = e.i + 1
+        log = self.w.log
+        while i < len(log) and within(log[i].ctx, e.ctx):
+            x = log[i]
+            if x.k in ("close", "abort") and x.c == e.c:
+                closed = True
+            elif x.k == "fire" and x.d.get("rid") == ri.rid:
+                reacted = True
+            elif x.k == "write" and kind == "PUBREC" and any(
+                    fr[0] == "PUBREL" and isinstance(fr[1], dict) and fr[1].get("id") == ri.msgid for fr in x.d["frames"]):
+                reacted = True
+            i += 1
+        return closed and not reacted
 
     def _fired_in_own_call(self, r):
         ei = r.fires[0][0]
